@@ -371,11 +371,12 @@ SeqChange ==
              e.res = "ok" => \E t \in Trees(cfg) : Applied(cfg, e, t))
       /\ Chk("C15", "failed-change-changes-nothing", e.res # "ok" => e.obs.trees = ot)
       /\ Chk("C15", "change-keeps-reservations", e.obs.slots = os)
+      \* by id and by search alike (Cand fixes t = e.id for a change by id): a candidate tree exists => the change succeeds
       /\ Chk("C15", "offline-of-free-unreserved-tree-succeeds",
-             (e.id # -1 /\ e.cop = 2 /\ Cand(cfg, e, e.id) /\ hidden[e.id] = 0
-                /\ ot[e.id + 1][1] = ManagedInTree(cfg, e.id)) => e.res = "ok")
+             (e.cop = 2 /\ \E t \in Trees(cfg) : Cand(cfg, e, t) /\ hidden[t] = 0
+                                                   /\ ot[t + 1][1] = ManagedInTree(cfg, t)) => e.res = "ok")
       /\ Chk("C15", "online-of-offline-tree-succeeds",
-             (e.id # -1 /\ e.cop = 1 /\ Cand(cfg, e, e.id)) => e.res = "ok")
+             (e.cop = 1 /\ \E t \in Trees(cfg) : Cand(cfg, e, t)) => e.res = "ok")
   /\ hidden' = IF e.res = "ok" /\ \E t \in Trees(cfg) : Applied(cfg, e, t)
                THEN NewHidden(e, CHOOSE t \in Trees(cfg) : Applied(cfg, e, t))
                ELSE hidden
